@@ -265,7 +265,10 @@ def mutate_value(
         The mutated object.
     """
     if new_value is UNCHANGED:
-        return old_value.__wrapped__ if isinstance(old_value, Proxy) else old_value
+        if not (attrs or transform or attr_transforms):
+            return old_value.__wrapped__ if isinstance(old_value, Proxy) else old_value
+        # Keep the current value, and apply whatever else was asked for to it.
+        new_value, replace = MISSING, False
 
     mutate_safe = inplace
     used_attrs = set()
@@ -428,7 +431,15 @@ def prepare_attr_value(
         The prepared value.
     """
     if value is UNCHANGED:
-        return UNCHANGED  # Nothing to prepare; `mutate_attr` treats this as a no-op.
+        if not attrs:
+            return UNCHANGED  # Nothing to prepare; `mutate_attr` treats this as a no-op.
+        # Keep the current value, and apply the attributes given to (a copy of) it.
+        return mutate_value(
+            old_value=getattr(instance, attr_spec.name, MISSING),
+            constructor=attr_spec.constructor,
+            expected_type=attr_spec.type,
+            attrs=attrs,
+        )
     # The preparer is a method like any other: a subclass (decorated or not) of
     # the class that declared the attribute may override `_prepare_<attr>`.
     preparer = (
